@@ -835,3 +835,22 @@ def check_inplace_views(P, R, own, key, rule="ALIAS.inplace-view"):
                         bad = (nm.id, d.stmt, other)
         R.check(bad is None, rule, key, src(st)[:60], f"no earlier view of `{a}` is read afterwards", (f"`{bad[0]}` (defined by `{src(bad[1])[:50]}`) may be a view of `{a}`; `{src(st)[:40]}` changes `{a}` in place and `{src(bad[2])[:50]}` reads `{bad[0]}` afterwards: it no longer holds the value it was computed as") if bad else "", st.lineno)
     return n
+
+
+def check_param_readonly(P, R, own, key, params, rule="OWN.readonly", why=""):
+    """The listed parameters of a function are not modified in place (transitive mutation summary)."""
+    f = P.func(key)
+    R.analysed(f)
+    sm = own.sums[f.key]
+    n = 0
+    for prm in params:
+        if prm not in f.params:
+            continue
+        n += 1
+        mine = {o: w for o, w in sm.mutates.items() if isinstance(o, tuple) and o[1] == prm}
+        if mine:
+            for o, w in mine.items():
+                R.violation(rule, key, f"parameter {fmt_org(o)} is modified in place", f"{w}: {why or 'the object the caller passed is changed by the call, so a second call with the same object computes from different values'}")
+        else:
+            R.ok(rule, key, f"parameter {prm} is not modified", "not in the transitive in-place mutation summary")
+    return n
